@@ -382,6 +382,7 @@ CHK_PRELUDE = """\
 #include <type_traits>
 #include <cstdio>
 using McS = ::S;
+template<class X> using ident = X;
 template<class A> using fn_param = void(A);
 template<class R> using fn_ret = R(void);
 template<class X> using bare = std::remove_cv_t<std::remove_reference_t<X>>;
@@ -551,10 +552,22 @@ def run_checker(d, probes, prelude=None):
             if p.chan != "W" and not hasattr(c, "alts") and getattr(c, "ctx", "").startswith("spec-"):
                 prim = spec_primary_text(L.base_of(c.term))
                 if prim is not None:
-                    a = c.expected(base_text=prim)
-                    if p.chan == "Dp":
-                        a = "std::add_pointer_t< %s >" % a
-                    alts.append(("specialization-ignored", a))
+                    # alone and combined with the other deviation models
+                    for names, t in [((), c.term)] + L.alternatives(c.term):
+                        if not L.role_ok(c.role, t):
+                            continue
+                        a = c.expected(t, base_text="ident< %s >" % prim)
+                        if p.chan == "Dp":
+                            a = "std::add_pointer_t< %s >" % a
+                        alts.append(("+".join(names + ("specialization-ignored",)), a))
+                        if L.mods_of(t)[:1] == "W" and prim.endswith("*"):
+                            # the resolved pointer type is printed textually after the leading
+                            # `volatile`, which then qualifies the pointee
+                            a = c.expected(t, base_text=prim)
+                            if p.chan == "Dp":
+                                a = "std::add_pointer_t< %s >" % a
+                            alts.append(("+".join(names + ("specialization-ignored",
+                                                           "leading-volatile-binds-to-pointee")), a))
             wrap = (lambda x: "bare< %s >" % x) if p.norm else (lambda x: x)
             conds = ["std::is_same< %s, %s >::value" % (wrap(exp), wrap("pr_%d" % i))]
             for nm, a in alts:
